@@ -1,4 +1,5 @@
 import JsonVerif.Lemmas.Serde
+import JsonVerif.Lemmas.DeSer
 /-!
 # C16 — serde: typed data round-trips through Value and agrees with serde_json
 
@@ -71,11 +72,53 @@ theorem C16_map_keys :
     serKey (.float none) = .error .nonStringKey ∧ serKey (.seq []) = .error .nonStringKey := by
   simp [serKey]
 
-/-- Round trip through the deserializer: full statement, not modelled in Lean (serde-derive's
-    generated visitors and src/serde/de.rs); tested end-to-end on a family of derive-annotated
-    types covering every shape above. -/
-def C16_roundtrip_full (T : Type) (toValue : T → Option JValue) (fromValue : JValue → Option T) : Prop :=
-  ∀ x : T, ∃ v, toValue x = some v ∧ fromValue v = some x
+/-- **Round trip** (the first sentence of the property, on the model of src/serde/ser.rs and
+    src/serde/de.rs): for every type descriptor `t` — bool, the eight integer widths, f32/f64, char,
+    String, unit, unit struct, Option, newtype struct, Vec, tuple / tuple struct, map keyed by
+    strings / integers / chars / unit variants (possibly behind newtypes), struct, externally
+    tagged enum with unit / newtype / tuple / struct variants, nested without bound — and every
+    datum `d` of that type (`HasTy`), `to_value` succeeds and deserializing its result at `t` gives
+    `d` back.
+
+    `HasTy` spells out the side conditions: integers within the width's range; field and variant
+    names distinct and no struct field spelled like the private number token; map keys distinct as
+    the key serializer spells them and none of them that token; no `Some(x)` where `x` itself
+    serializes to `null` (`Option<()>`, `Option<Option<_>>`: serde_json's own limitation); floats
+    finite and stable under the text conversion of the json-number / lexical dependency
+    (`env.f64 t = some t`: an explicit assumption on that dependency, checked bit-for-bit by the
+    harness's oracle on every run). -/
+theorem C16_round_trip (env : FEnv) (t : DTy) (d : SData) (h : HasTy env t d) :
+    ∃ v, ser d = .ok v ∧ de env t v = .ok d :=
+  de_ser env t d h
+
+/-- Integers of every width at every value in range, alone: decimal text out, the same integer in. -/
+theorem C16_integers (w : IntW) (i : Int) (h1 : w.lo ≤ i) (h2 : i ≤ w.hi) :
+    ∃ n, ser (w.mk i) = .ok (.number n) ∧ intVisit w n = .ok (w.mk i) :=
+  int_rt w i h1 h2
+
+/-- Map keys of every supported key type: the key serializer's spelling is read back as the key
+    (`str::parse` on `to_string` for integers, one-character strings for chars, the variant name
+    for unit variants). -/
+theorem C16_map_key_round_trip (k : KTy) (kd : SData) (h : HasKey k kd) :
+    ∃ n, serKey kd = .ok n ∧ deKey k n = .ok kd :=
+  key_rt k kd h
+
+/-- Non-finite floats are outside `HasTy`: they serialize to `null`, which no float type reads. -/
+theorem C16_non_finite (env : FEnv) :
+    ser (.float none) = .ok .null ∧ de env .f64 .null = .error .invalidType ∧
+    de env (.opt .f64) .null = .ok .none := by
+  simp [ser, de]
+
+/-! Non-vacuity of `HasTy`: a struct with an integer, an option, a map keyed by integers and an
+    enum-typed field holding a struct variant. -/
+example (env : FEnv) (hf : env.f64 ['1', '.', '5'] = some ['1', '.', '5']) :
+    HasTy env (.struct [(['a'], .int .i8), (['b'], .opt .bool), (['c'], .f64),
+        (['e'], .enum [(['U'], .unit), (['S'], .struct [(['x'], .str)])])])
+      (.struct [(['a'], IntW.i8.mk (-5)), (['b'], .some (.bool true)), (['c'], .float (some ['1', '.', '5'])),
+        (['e'], .structVariant ['S'] [(['x'], .str ['h', 'i'])])]) := by
+  refine ⟨_, rfl, ⟨_, _, rfl, ⟨-5, by decide, by decide, rfl⟩, _, _, rfl,
+    Or.inr ⟨_, rfl, ⟨true, rfl⟩, by simp [ser]⟩, _, _, rfl, ⟨_, rfl, hf⟩, _, _, rfl, ?_, rfl⟩, by decide, by decide⟩
+  refine Or.inr ⟨by simp [variantOf], Or.inl ⟨_, rfl, ⟨_, _, rfl, ⟨_, rfl⟩, rfl⟩, by decide⟩⟩
 
 /-! Non-vacuity: a struct with an enum field and a map, kernel-evaluated. -/
 example : okEq (ser (.struct [(['a'], .int (-5)), (['b'], .structVariant ['S'] [(['x'], .bool true)]),
